@@ -185,7 +185,8 @@ CHECKS = {
         "position (parity bit included) injected, real ECCDecoder reads back; data words exhaustive for small k, linear "
         "basis plus random words otherwise; enable=0 pass-through checked with flips.",
    note="Codecs are combinational (time axis belongs to the harness); for large k sufficiency of the basis rests on "
-        "linearity of the code.",
+        "linearity of the code. Widths: quick 14 widths between 1 and 64; thorough every width 1..32 and 40, 48, 57, 64, 72, "
+        "96, 120, 128 (every width 1..128 did not finish in 90 minutes).",
    tech="deterministic simulation with enumerated stored-bit-flip injection (all single and double positions)"),
  "C19": dict(cat="exploration", ref="DESIGN.md 5.C19",
    text="Real RS232PHYTX / RS232PHYRX, SPIMaster (raw/aligned, dividers 2-16, manual CS, loopback), Timer and Watchdog (through a "
